@@ -329,6 +329,12 @@ func (p *Prog) ModuleFuncs() []*ssa.Function {
 			switch x := m.(type) {
 			case *ssa.Function:
 				add(x)
+				if x.Synthetic != "" {
+					// the package initialiser itself is synthetic, but closures in variable initialisers are source code
+					for _, a := range x.AnonFuncs {
+						add(a)
+					}
+				}
 			case *ssa.Type:
 				n, ok := x.Type().(*types.Named)
 				if !ok {
